@@ -17,7 +17,7 @@ MaxI(a, b) == IF a >= b THEN a ELSE b
 (* decrease along every path)                                                *)
 DagEdgeSets(n) == SUBSET {<<u, v>> \in (0..(n - 1)) \X (0..(n - 1)) : u < v}
 PlanInputs ==
-    {[n |-> n, edges |-> es, dv |-> dv, name |-> nm, clock |-> ck, rev |-> rv] :
+    {[n |-> n, edges |-> es, dv |-> dv, name |-> nm, clock |-> ck, rev |-> rv, half |-> FALSE] :
         n \in 1..4, es \in UNION {DagEdgeSets(m) : m \in 1..4}, dv \in {"none", "all", "odd"},
         nm \in {"a", "obs_x"}, ck \in {0, 7}, rv \in BOOLEAN}
 ValidPlanInput(x) == x.edges \in DagEdgeSets(x.n)
@@ -38,8 +38,9 @@ PlanOK(x, p) ==
        /\ {ts[i].gid : i \in 1..Len(ts)} = N
        /\ \A k \in N :
             /\ byk(k).id = TaskId(x, k)
-            /\ byk(k).flops = k + 1
-            /\ byk(k).data = IF HasData(x, k) THEN 2 ELSE 0
+            (* demands are carried over exactly, whole numbers or not (logged doubled) *)
+            /\ byk(k).flops2 = 2 * (k + 1) + (IF x.half THEN 1 ELSE 0)
+            /\ byk(k).data2 = IF HasData(x, k) THEN 4 + (IF x.half THEN 1 ELSE 0) ELSE 0
             /\ RangeOf(byk(k).pred) = {TaskId(x, u) : u \in {u \in N : <<u, k>> \in E}}
             /\ Len(byk(k).pred) = Cardinality({u \in N : <<u, k>> \in E})
             /\ {<<q.p, q.v>> : q \in RangeOf(byk(k).io)} = {<<TaskId(x, u), EdgeVol(u, k)>> : u \in {u \in N : <<u, k>> \in E}}
@@ -57,9 +58,13 @@ UnitInts == {1, 2, 7, 60, 75, 90, 300, 600, 3600}
 Mult(u, ui) == CASE u = "minutes" -> 60 [] u = "hours" -> 3600 [] u = "int" -> ui [] OTHER -> 1
 (* raw values are whole multiples: start/duration given as (steps x mult),  *)
 (* rates as per-second values                                               *)
+RealTimeRate == -1
 ConfigInputs == {[unit |-> u, ui |-> ui, start |-> s, dur |-> d, rate |-> r, flops |-> f, bw |-> b, hotrate |-> h, coldrate |-> c] :
                    u \in Units, ui \in UnitInts, s \in {0, 3, 7}, d \in {1, 5, 7, 15, 29}, r \in {1, 4}, f \in {2, 7}, b \in {1, 3},
                    h \in {5}, c \in {2}}
+                \cup
+                {[unit |-> u, ui |-> ui, start |-> sd[1], dur |-> sd[2], rate |-> 4, flops |-> 2, bw |-> 3, hotrate |-> 5, coldrate |-> RealTimeRate] :
+                   u \in Units, ui \in UnitInts, sd \in {<<0, 1>>, <<7, 29>>}}
 ConfigOK(x, y) ==
     LET m == Mult(x.unit, x.ui)
     IN /\ y.raw_start = x.start * m /\ y.raw_dur = x.dur * m    \* what the JSON file contained
@@ -68,7 +73,10 @@ ConfigOK(x, y) ==
        /\ y.obs.demand = 3 /\ y.total_arrays = 8 /\ y.max_ingest = 2 /\ y.ingest_demand = 2
        /\ y.mach.cpu = x.flops * m /\ y.mach.bw = x.bw * m
        /\ y.sysbw = 4 * m
-       /\ y.hot.rate = x.hotrate * m /\ y.cold.rate = x.coldrate * m
+       (* a non-positive cold rate is a marker (`real time`), it stays non-positive; the hot *)
+       (* tier's limit is scaled like every other rate whatever the cold tier says          *)
+       /\ y.hot.rate = x.hotrate * m
+       /\ (IF x.coldrate > 0 THEN y.cold.rate = x.coldrate * m ELSE y.cold.rate <= 0)
        /\ y.hot.cap = 500 /\ y.cold.cap = 700
        (* derived: data volume and runtime in seconds do not depend on the unit *)
        /\ y.volume = x.rate * x.dur * m
@@ -120,7 +128,7 @@ Report(ok, what, k) == IF ok THEN TRUE ELSE PrintT(<<"PURE", what, k>>)
 
 CoverPlan ==
     LET got == {[n |-> r.x.n, edges |-> RawEdges(r.x), dv |-> r.x.dv, name |-> r.x.name, clock |-> r.x.clock,
-                 rev |-> r.x.rev] : r \in RangeOf(PData.plan)}
+                 rev |-> r.x.rev, half |-> r.x.half] : r \in RangeOf(PData.plan)}
     IN {x \in PlanInputs : ValidPlanInput(x)} \subseteq got
 CoverConfig ==
     LET got == {[unit |-> r.x.unit, ui |-> r.x.ui, start |-> r.x.start, dur |-> r.x.dur, rate |-> r.x.rate,
